@@ -329,7 +329,8 @@ def dispatch2 (op : String) (args : List SExp) : Option String :=
       let i : Option IgnoreArg := if ig == "unset" then some [] else if ig == "false" then some [false] else if ig == "true" then some [true]
         else ig.toList.mapM (fun ch => if ch == 't' then some true else if ch == 'f' then some false else none)
       let r : Option RootArg := if root == "none" then some .none else if root == "pem" then some .correctPem else if root == "der" then some .correctDer
-        else if root == "unrelated" then some .unrelated else none
+        else if root == "unrelated" then some .unrelated else if root == "decoyfirst" then some .decoyThenCorrect
+        else if root == "decoylast" then some .correctThenDecoy else none
       let k : Option CertKind := if cert == "valid" then some .valid else if cert == "wrongname" then some .wrongName else if cert == "expired" then some .expired
         else if cert == "selfsigned" then some .selfSigned else if cert == "unknownca" then some .unknownCa else none
       -- optional: host kind, then the scheme the target is written with (ipps / https: the same TLS set-up)
@@ -344,7 +345,7 @@ def dispatch2 (op : String) (args : List SExp) : Option String :=
       | some b, some c, some i, some r, some k, some h =>
         let show_ (a : Bool) := if a then "accepted app=+" else "rejected app=0"
         -- model ## what the property demands (accept iff the latest setter call opted out, or valid certificate with the correct root)
-        let should := i.getLast? == some true || (k == .valid && (r == .correctPem || r == .correctDer))
+        let should := i.getLast? == some true || (k == .valid && (r == .correctPem || r == .correctDer || r == .decoyThenCorrect || r == .correctThenDecoy))
         s!"{show_ (accepts c b i r k h)} ## {show_ should}"
       | _, _, _, _, _, _ => "(bad-arg)")
   | "thmunser", [w, .atom p] =>
